@@ -20,13 +20,11 @@ Theorem C31_keys_nodup : forall keys : list (list (list Z)),
 Proof. exact reduce_keys_nodup. Qed.
 Print Assumptions C31_keys_nodup.
 
-(* Bag.to_dict (model of its traversal, Model/C31Bag.v): every object given is reported with all its attributes -- always, if
-   /repo's _process_object leaves given objects alone when it meets them as related objects (bag_skips_given_related, scanned);
-   with the original guards only when no given object is referred to by another given object (complement: Findings/C31.v) *)
-Theorem C31_bag_given_full_except_known : forall (rel : nat -> list nat) (order : list nat),
-  bag_skips_given_related = true \/ indep rel order -> forall o, In o order -> bag_to_dict rel order o = Some Full.
-Proof. exact bag_given_full. Qed.
-Print Assumptions C31_bag_given_full_except_known.
+(* Bag.to_dict (model of its traversal, Model/C31Bag.v): every object given is reported with all its attributes: _process_object
+   leaves given objects alone when it meets them as related objects (bag_skips_given_related = true, scanned from /repo) *)
+Theorem C31_bag_given_full : forall (rel : nat -> list nat) (order : list nat) o, In o order -> bag_to_dict rel order o = Some Full.
+Proof. exact bag_given_full_now. Qed.
+Print Assumptions C31_bag_given_full.
 
 (* every object has its key when the result is keyed (Bag.to_dict flushes first): different objects, different result keys *)
 Theorem C31_bag_keys : forall (K : Type) (pks : list K), NoDup pks -> NoDup (bag_keys pks) /\ ~ In None (bag_keys pks).
